@@ -149,6 +149,9 @@ func init() {
 			// enclosing list (a `var` / `const` / `type` declared in it would shadow for the rest of the outer block)
 			c.guard("RW.NOLOSS", func() { r.ruleCoverKinds(map[string]bool{"BlockStmt": true}) })
 			c.guard("RW.SCOPE.REDECL", func() { ruleRwRedecl(c) })
+			// "closures … observe updates made after it": a closure over a function variable keeps reading the variable
+			// (reduced to the variable's value it would copy it once, whichever way the callee was resolved)
+			c.guard("OPT.ETA", r.ruleOptEta)
 			// scoping only: the combine table, hoisting (not return rewriting), the consumer loop's binding form
 			c.keep(func(o Obligation) bool {
 				switch o.Rule {
@@ -156,6 +159,8 @@ func init() {
 					return o.Construct == "combineRequired"
 				case "RW.TMPL.RETURN", "RW.TMPL.RANGE.TUPLE": // evaluation order of '=' range bindings is C04's
 					return false
+				case "OPT.ETA":
+					return strings.HasPrefix(o.Construct, "callee is a function variable") || o.Construct == "pattern shape" || o.Construct == "liveness"
 				case "RW.NOLOSS":
 					return strings.HasPrefix(o.Construct, "block") && !strings.Contains(o.Construct, "no part twice")
 				case "RW.DISPATCH", "RW.FIELDCOV", "RW.DEEPVISIT", "RW.BLOCKSTATE":
